@@ -27,7 +27,7 @@ RULE = (
     "distinct = coarse scenario key + boundary types + amplitude."
 )
 ASSUMPTIONS = [
-    "MIRROR_BOTH: equality is required when the single reflection lands inside the bounds, otherwise only containment",
+    "MIRROR_BOTH: equality with the repeatedly reflected value is required when at most 4 reflections bring it inside (the code documents 'repeat the mirroring a few times ... if that is not sufficient, clip'), beyond that only containment",
     "monitor fit with controlled randomness (DESIGN.md): verdict depends on configuration, point and samples",
 ]
 COMPONENTS = {
